@@ -47,9 +47,16 @@ PROPS = {
                 rule="every logic/shift/rotate form x register nibbles x all 256 CCR x boundary + random values", assumptions=COMMON_ASSUME),
     "C04": dict(drivers=[step_cases("C04")], mc=[], must_cover=impl_rows({"BSET", "BCLR", "BNOT", "BTST", "BST", "BIST", "BLD", "BILD", "BAND", "BIAND", "BOR", "BIOR", "BXOR", "BIXOR"}),
                 rule="every bit-manipulation form x operand/bit/address register nibbles x values x bit numbers x C", assumptions=COMMON_ASSUME),
-    "C05": dict(drivers=[step_cases("C05")], mc=[], must_cover=impl_rows({"BCC", "JMP", "JSR", "BSR", "RTS"}),
+    "C05": dict(gen=[dict(name="words", module="MC_CallRet.tla", cfg="MC_CallRet_t.cfg", cfg_q="MC_CallRet.cfg")],
+                drivers=[step_cases("C05"),
+                         dict(name="callret", module="TraceRun.tla", args=["callret", "--in", "{words}", "--out", "{out}", "--threads", "{threads}", "--seed", "{seed}"])],
+                mc=[], must_cover=impl_rows({"BCC", "JMP", "JSR", "BSR", "RTS"}),
                 rule="16 conditions x 256 CCR x both Bcc forms x displacements; JMP/JSR/BSR/RTS x target registers x SP placements incl. non-zero upper byte", assumptions=COMMON_ASSUME),
-    "C06": dict(drivers=[step_cases("C06")], mc=[], must_cover=impl_rows({"TRAPA", "RTE"}),
+    "C06": dict(gen=[dict(name="sched", module="MC_Intc.tla", cfg="Gen_Irq_t.cfg", cfg_q="Gen_Irq_q.cfg")],
+                drivers=[step_cases("C06"),
+                         dict(name="acc", module="TraceRun.tla", args=["acc-cases", "--tier", "{tier}", "--out", "{out}", "--threads", "{threads}", "--seed", "{seed}"]),
+                         dict(name="irq", module="TraceRun.tla", args=["irq-replay", "--tier", "{tier}", "--in", "{sched}", "--out", "{out}", "--threads", "{threads}", "--seed", "{seed}"])],
+                mc=[], must_cover=impl_rows({"TRAPA", "RTE"}),
                 rule="TRAPA #1-3 / RTE x CCR x SP placements x vector contents with non-zero top byte", assumptions=COMMON_ASSUME),
     "C08": dict(drivers=[step_cases("C08")], mc=[], must_cover=impl_rows(pred=lambda r: r["a"][0] in ("IND", "D16", "D24", "INC", "DEC", "A8", "A16", "A24") or r["b"][0] in ("IND", "D16", "D24", "INC", "DEC", "A8", "A16", "A24")),
                 rule="every form with a memory operand x base registers with upper byte 00/01/7F/80/FF/5A/A5 x wrapping displacements x region edges; tagged memory makes the accessed location observable", assumptions=COMMON_ASSUME),
@@ -88,4 +95,9 @@ PROPS = {
                 rule="generated ELF32-BE files: 1-4 ascending non-overlapping PT_LOADs (gaps 0.., adjacent, filesz 0..512 / 64 KiB in thorough, bss tails), 0-2 non-load headers at any position, shuffled file offsets and section order, .got of 0-16 (64) entries anywhere in a segment incl. its bss tail, unaligned / partial sizes, entry values incl. 0 and sums carrying into the top byte; the real elf::load is run on each file; the COMPLETE non-zero DRAM contents and any change outside DRAM are compared with the image recomputed by TLC from the abstract description", assumptions=COMMON_ASSUME + ["the harness's ELF writer encodes the abstract description correctly (the loader's own parser reads it back; cross-checked with readelf in the self-test)"]),
     "C12": dict(mc=[], drivers=[dict(name="elf", module="TraceElf.tla", args=["elf-load", "--tier", "{tier}", "--out", "{out}", "--threads", "{threads}", "--seed", "{seed}"])],
                 rule="as C11, with .stack sizes {0,1,3,4,5,0x400,0xFFFF,0x10000,random}, symbol tables of 1-24 (200) symbols with ___exit first / last / anywhere and near-miss names, argument strings of 0-10 (32) words with runs of blanks/tabs, leading/trailing white space, words up to 60 (200) bytes; ER0/1/2/5/7, exit address, argv table and strings, layout predicates", assumptions=COMMON_ASSUME),
+    "C10": dict(gen=[dict(name="sched", module="MC_Intc.tla", cfg="Gen_Irq_t.cfg", cfg_q="Gen_Irq_q.cfg")],
+                mc=[dict(module="MC_Intc.tla", cfg="MC_Intc.cfg")],
+                drivers=[dict(name="irq", module="TraceRun.tla", args=["irq-replay", "--tier", "{tier}", "--in", "{sched}", "--out", "{out}", "--threads", "{threads}", "--seed", "{seed}"])],
+                count_traces="histories",
+                rule="TLC enumerates EVERY placement of <= 3 (4) requests over 3 vector slots among 9 (12) instruction boundaries; each schedule is replayed on a real guest program (counted arithmetic loop; handlers push, log their vector number, pop, RTE; some handlers TRAPA into nested trap handlers; slots mapped over all vectors 1-63; code / stack / data in on-chip RAM and DRAM; runs that start masked), stepping loop = try_interrupt + fetch/exec; every boundary (acc) and every instruction (step) is validated against the spec, pending multiset tracked, final 'end' (nothing pending, entered = requested per vector) and 'cmp' against the interrupt-free run of the same program; plus seeded random longer schedules", assumptions=COMMON_ASSUME),
 }
